@@ -423,3 +423,60 @@ PROPS["C08"] = dict(
                  "goto queries without a table entry are excluded (the generated code panics there by design: 'Invalid GOTO entry')"],
     harnesses=e3_harnesses(),
 )
+
+# ---- table construction kernels (C04, C03) --------------------------------------------------
+F_KERN = ["rustemo-compiler/src/table/mod.rs: firsts, production_rn_lengths, LRItem::{is_kernel, is_reducing, inc_position}, LRState::kernel_items, impl PartialEq for LRState, LRTable::merge_state (whole functions / items, sliced verbatim)"]
+
+
+def kernh(name, what, bounds, tiers=Q, **kw):
+    return h("e2", "tablekern::proofs::" + name, what, bounds, F_KERN, tiers=tiers, timeout=600, mem_gb=12, cost=2, extra=NOMEM, **kw)
+
+
+KERN = [
+    kernh("firsts_0", "FIRST of the empty sequence", "first sets: arbitrary bitsets over 6 symbols"),
+    kernh("firsts_1", "FIRST of a 1-symbol sequence", "first sets: arbitrary bitsets over 6 symbols; any symbol"),
+    kernh("firsts_2", "FIRST of a 2-symbol sequence", "first sets: arbitrary bitsets over 6 symbols; any symbols"),
+    kernh("firsts_3", "FIRST of a 3-symbol sequence", "first sets: arbitrary bitsets over 6 symbols; any symbols", tiers=T),
+    kernh("rn_len_0", "right-nulled length / is_reducing, empty production", "arbitrary nullability"),
+    kernh("rn_len_2", "right-nulled length / is_reducing, production of length 2", "arbitrary nullability, any dot position"),
+    kernh("rn_len_3", "right-nulled length / is_reducing, production of length 3", "arbitrary nullability, any dot position"),
+    kernh("rn_len_4", "right-nulled length / is_reducing, production of length 4", "arbitrary nullability, any dot position", tiers=T),
+    kernh("merge_lalr_2", "merge_state, LALR: always merges, lookaheads = union", "2 kernel items, follow sets arbitrary non-empty subsets of 3 terminals, reducing / non-reducing / right-nulled items"),
+    kernh("merge_pager_1", "merge_state, Pager, single kernel item", "1 kernel item"),
+    kernh("kern_twin_must_fail", "vacuity twin (must FAIL)", "-", expect_fail=True),
+]
+PROPS["KERN"] = dict(level="other", explanation="dev", harnesses=KERN)
+
+PROPS.pop("KERN", None)
+KD = {x["name"].split("::")[-1]: x for x in KERN}
+
+PROPS["C04"] = dict(
+    level="other",
+    explanation=(
+        "Solver-decided pieces of 'the LR table is a core-preserving compression of canonical LR(1)': (1) kernels of the "
+        "construction, whole functions sliced verbatim from table/mod.rs: FIRST of a symbol sequence (firsts), right-nulled "
+        "lengths (production_rn_lengths), LRItem::is_reducing / is_kernel, and merge_state for LALR (always merges, lookaheads = "
+        "union, non-kernel items untouched) and for a single-item kernel under Pager; (2) the consequence the user relies on: "
+        "for every grammar of the corpus (LALR(1) grammars, grammars that are LR(1) but not LALR(1) and need state splitting, "
+        "under table types LALR and LALR_PAGER) the table the real compiler computes is conflict-free and the automaton over it "
+        "accepts exactly the sentences, for every token string up to the bound (shared with C01)."
+    ),
+    residual="closure / calc_states / propagate_follows as fixpoints over a whole automaton for arbitrary grammars; the weak-compatibility test of merge_state for kernels of 2+ items (CBMC exhausts 12 GB on the iterator-heavy code even with stand-in sets; its effect is covered only through the corpus grammars that need splitting: g4, g9 pager_g1, g10 lalrpop768, g11)",
+    assumptions=["stand-ins: BTreeSet<SymbolIndex> -> 8-bit bitset with the same method names and ascending iteration; SymbolVec/ProdVec/ItemVec/Vec -> fixed arrays / fixed-capacity vector; itertools::chain -> Iterator::chain",
+                 "see C01 for the corpus/automaton assumptions"],
+    harnesses=[KD[n] for n in ("firsts_0", "firsts_1", "firsts_2", "firsts_3", "rn_len_0", "rn_len_2", "rn_len_3", "rn_len_4", "merge_lalr_2", "merge_pager_1", "kern_twin_must_fail")] + e4_harnesses(),
+)
+
+PROPS["C03"] = dict(
+    level="other",
+    explanation=(
+        "Only the table-side mechanism of the GLR forest property is in reach: the right-nulled reduction rule. Kani/CBMC decides "
+        "on the real (sliced) production_rn_lengths and LRItem::is_reducing that, for every production of length <= 4 with "
+        "arbitrary nullability of its symbols, the right-nulled length is the least position after which every symbol is "
+        "nullable, and that an item reduces exactly at the end of the production or - in an RN table - at a position after which "
+        "the rest of the production is nullable (so elided trailing children always derive the empty string)."
+    ),
+    residual="the GLR reducer/shifter (GSS on petgraph, Rc, nested BTreeMaps) - i.e. completeness and duplicate-freedom of the forest - and Forest/Tree index decoding (the leaf harnesses on the real Rc/RefCell/VecDeque SPPF did not finish within 25 minutes each)",
+    assumptions=["stand-ins as in C04"],
+    harnesses=[KD[n] for n in ("rn_len_0", "rn_len_2", "rn_len_3", "rn_len_4", "kern_twin_must_fail")],
+)
